@@ -131,52 +131,104 @@ def canon(x):
 
 # ----------------------------------------------------------------------------------------------
 # the child side
+_LEAK = []  # arrays that may hold wild pointers are never released (the isolated child ends with os._exit)
+
+
+def _unchecked(rows, idx, n):
+    """True when collect_cython, having returned n rows for the indexes idx, must have performed an unchecked read:
+    one of the rows it served is not a tuple, or is a tuple too short for a requested index.  The returned
+    array then holds wild pointers; touching an element (repr, str, even releasing the array) is what crashes or
+    raises later, nondeterministically - so the elements are never inspected and the array is leaked."""
+    if not isinstance(rows, list) or not idx or n <= 0:
+        return False
+    hi, lo = max(idx), min(idx)
+    return any((not isinstance(row, tuple)) or lo < 0 or len(row) <= hi for row in rows[:n])
+
+
+def _cells(r):
+    return {"ok": {"shape": list(r.shape), "cells": [[canon(x) for x in col] for col in r]}}
+
+
 def _run_case(case):
+    """Phase 1: the call itself (a Python exception here is the helper's own).  Phase 2: only if the call returned and
+    performed no unchecked read, the result is inspected."""
     import numpy
 
     from orso.compute import compiled
 
     k = case["k"]
+    if k == "seq":  # several calls in one child (replays a death that a single call does not reproduce)
+        for c in case["cases"]:
+            _run_case(c)
+        return {"ok": {"n": len(case["cases"])}}
+    unchecked = None
     try:
         if k == "collect":
             args = [build(case["rows"]), build(case["cols"])]
             if "limit" in case:
                 args.append(build(case["limit"]))
+            _LEAK.append(args)  # an unchecked read on a list row also damages the row itself: never release the arguments
             r = compiled.collect_cython(*args)
-            return {"ok": {"shape": list(r.shape), "cells": [[canon(x) for x in col] for col in r]}}
-        if k == "df":
+            _LEAK.append(r)
+            idx = [int(c) for c in args[1]] if isinstance(args[1], numpy.ndarray) and args[1].ndim == 1 else []
+            if _unchecked(args[0], idx, r.shape[1] if r.ndim == 2 else 0):
+                unchecked = list(r.shape)
+        elif k == "df":
             from orso.dataframe import DataFrame
 
-            df = DataFrame(rows=build(case["rows"]), schema=list(case["names"]))
+            rows = build(case["rows"])
+            df = DataFrame(rows=rows, schema=list(case["names"]))
+            _LEAK.append((rows, df))
             cols = case["cols"]
             kw = {}
             if "limit" in case:
                 kw["limit"] = build(case["limit"])
             r = df.collect(list(cols) if isinstance(cols, list) else cols, **kw)
-            if isinstance(cols, list):
-                return {"ok": {"shape": list(r.shape), "cells": [[canon(x) for x in col] for col in r]}}
-            return {"ok": {"shape": [1] + list(r.shape), "cells": [[canon(x) for x in r]]}}
-        if k == "extract":
+            _LEAK.append(r)
+            names = list(case["names"])
+            idx = [c if isinstance(c, int) else names.index(c) for c in (cols if isinstance(cols, list) else [cols])]
+            if _unchecked(rows, idx, r.shape[-1]):
+                unchecked = list(r.shape)
+        elif k == "extract":
             r = compiled.extract_dict_columns(build(case["data"]), build(case["fields"]))
-            return {"ok": {"type": type(r).__name__, "items": [canon(x) for x in r]}}
-        if k == "width":
+        elif k == "width":
             r = compiled.calculate_data_width(build(case["arr"]))
-            return {"ok": {"type": type(r).__name__, "value": int(r)}}
-        if k == "width_df":
+        elif k == "width_df":
             from orso.dataframe import DataFrame
 
-            t = DataFrame(rows=build(case["rows"]), schema=list(case["names"]))
-            r = [compiled.calculate_data_width(t.collect(i)) for i in range(t.columncount)]  # display.py:335
-            return {"ok": {"type": "list", "value": [int(x) for x in r]}}
-        if k == "seq":  # several calls in one child (replays a death that a single call does not reproduce)
-            for c in case["cases"]:
-                _run_case(c)
-            return {"ok": {"n": len(case["cases"])}}
-        raise KeyError(k)
+            rows = build(case["rows"])
+            t = DataFrame(rows=rows, schema=list(case["names"]))
+            _LEAK.append((rows, t))
+            r = []
+            for i in range(t.columncount):  # display.py:335
+                col = t.collect(i)
+                _LEAK.append(col)
+                if _unchecked(rows, [i], col.shape[-1]):
+                    unchecked = list(col.shape)
+                    break
+                r.append(compiled.calculate_data_width(col))
+        else:
+            raise KeyError(k)
     except KeyError:
         raise
-    except BaseException as e:  # a Python exception raised by the call
+    except BaseException as e:  # a Python exception raised by the call itself
         return {"exc": type(e).__name__}
+    if unchecked is not None:
+        return {"returned_without_raising": True, "shape": unchecked}
+    try:  # the call returned and every read it made was inside its object: look at the result
+        if k == "collect":
+            return _cells(r)
+        if k == "df":
+            if isinstance(case["cols"], list):
+                return _cells(r)
+            return {"ok": {"shape": [1] + list(r.shape), "cells": [[canon(x) for x in r]]}}
+        if k == "extract":
+            return {"ok": {"type": type(r).__name__, "items": [canon(x) for x in r]}}
+        if k == "width":
+            return {"ok": {"type": type(r).__name__, "value": int(r)}}
+        return {"ok": {"type": "list", "value": [int(x) for x in r]}}
+    except BaseException as e:
+        return {"inspect_exc": type(e).__name__}
 
 
 def _write_all(fd, data):
@@ -459,13 +511,18 @@ def known(case, obs):
                 and some requested index lies at or beyond the end of a shorter row among the first limit' rows
                 (the first row the loops cannot serve is such a tuple) - exactly where the model says UB on tuples.
        F-C10-2: the same walk first meets a row that is neither a tuple nor None (unchecked <tuple> cast).
+       For both the guard also requires the misbehaviour itself: the child died, or the helper returned without
+       raising although it had to perform an unchecked read (obs "returned_without_raising"; the elements of such an
+       array are wild pointers and are never inspected).  If the helper raises a Python exception on such an input
+       the case is not guarded and the ordinary oracle accepts it.
        F-C10-3: a wrongly typed argument is silently accepted and a value returned instead of an exception:
                 None for `columns` / for `data`, a float `limit`, an unhashable field."""
     k = case["k"]
+    misbehaved = "died" in obs or "returned_without_raising" in obs
     if k in ("collect", "df", "width_df"):
         if k == "width_df":
             rows = case["rows"]
-            if rows[0] != "l":
+            if rows[0] != "l" or not misbehaved:
                 return None
             for i in range(len(case["names"])):
                 w = _walk(rows[1], [i], -1)
@@ -477,9 +534,9 @@ def known(case, obs):
         v = _collect_view(case)
         if v is not None:
             w = _walk(*v)
-            if isinstance(w, tuple) and w[0] == "short-tuple":
+            if isinstance(w, tuple) and w[0] == "short-tuple" and misbehaved:
                 return "F-C10-1"
-            if isinstance(w, tuple) and w[0] == "non-tuple":
+            if isinstance(w, tuple) and w[0] == "non-tuple" and misbehaved:
                 return "F-C10-2"
             return None
         if k == "collect" and "ok" in obs and case["cols"] == ["n"]:
@@ -512,6 +569,9 @@ def known_still_fails(fid, witness):
     obs = _ask(witness, "iso")
     if "died" in obs:
         return "child died with status %s" % obs["died"]
+    if "returned_without_raising" in obs:
+        return ("the helper returned an array of shape %s instead of raising, after reading outside a row object "
+                "(its elements are wild pointers; not inspected)" % obs["shape"])
     if fid == "F-C10-3":
         return "returned %s instead of raising" % json.dumps(obs["ok"]) if "ok" in obs else None
     why = oracle(witness, obs)
@@ -576,6 +636,12 @@ def oracle(case, obs):
             return ("no input may terminate the interpreter: the shared worker died with status %s while serving this call; the call alone does not "
                     "reproduce it, so one of the %s earlier calls in that worker corrupted memory (shrinking replays the sequence)" % (obs["died"], obs.get("shared_worker_calls_before", "?")))
         return "no input may terminate the interpreter: the sacrificial child died with status %s" % obs["died"]
+    if "returned_without_raising" in obs:
+        return ("a row the call serves is not a tuple wide enough for every requested index (not a tuple at all, or shorter than the first row): "
+                "a Python exception is required, but the helper returned an array of shape %s - it read outside the row object; the "
+                "elements are wild pointers and were not inspected" % obs["shape"])
+    if "inspect_exc" in obs:
+        return "the helper returned normally but inspecting its result raised %s" % obs["inspect_exc"]
     k = case["k"]
     if k == "seq":
         return None
@@ -691,8 +757,10 @@ def _oracle_df(case, obs):
 # ----------------------------------------------------------------------------------------------
 # Coq literals
 def _coq_obs(obs, table):
-    if "died" in obs:
-        return "ODied"
+    if "died" in obs or "returned_without_raising" in obs:
+        return "ODied"  # the unchecked read happened (death, or an array of wild pointers): matches only a model UB
+    if "inspect_exc" in obs:
+        return "OOtherExc"
     if "exc" in obs:
         return {"IndexError": "OIndexError", "TypeError": "OTypeError"}.get(obs["exc"], "OOtherExc")
     fresh = {}
@@ -805,7 +873,8 @@ def classify(case, obs):
         yield "skipped-by-circuit-breaker"
         return
     yield "mode:" + _mode(case)
-    yield "outcome:" + ("ok" if "ok" in obs else ("died" if "died" in obs else "exc:" + obs["exc"]))
+    yield "outcome:" + ("ok" if "ok" in obs else "died" if "died" in obs else "returned-after-unchecked-read" if "returned_without_raising" in obs
+                        else "inspect-exc" if "inspect_exc" in obs else "exc:" + obs["exc"])
     if k in ("collect", "df"):
         v = _collect_view(case)
         if v is None:
